@@ -2,8 +2,8 @@ package check
 
 import (
 	"fmt"
-	"os"
 	"math/rand"
+	"os"
 	"sort"
 
 	"verif/harness/internal/drive"
@@ -115,10 +115,59 @@ func (c *Ctx) TokenGameRound(fs []Finding, ps []*prog.Program, o RoundOpts) erro
 	}
 	sort.Ints(rejected)
 	// confirmation pass for time-dependent rejections
+	// Time-dependent rejections are re-run slowly before they count.  The
+	// re-run set is capped (a tree on which many runs hang would otherwise
+	// take hours): candidates that no known finding explains come first, one
+	// per program before a second of the same program.
+	mkRej := func(r int) Rejection {
+		f := fails[r]
+		p := ps[progOf(r)]
+		tags := append([]string{}, p.Tags...)
+		if o.ExtraTags != nil {
+			tags = append(tags, o.ExtraTags(p, &scheds[r])...)
+		}
+		kind := ""
+		if n := p.Node(f.Node); n != nil {
+			kind = n.Kind
+		}
+		return Rejection{Prop: c.Prop, Tags: tags, Ev: f.Ev, Node: f.Node, NodeKind: kind, Detail: detail(p, o.Filter(p, runs[r]), f)}
+	}
 	var confirm []int
-	for _, r := range rejected {
-		if timeDependent(fails[r].Ev) {
-			confirm = append(confirm, r)
+	{
+		var fresh, known []int
+		for _, r := range rejected {
+			if timeDependent(fails[r].Ev) {
+				if MatchFinding(fs, mkRej(r)) != nil {
+					known = append(known, r)
+				} else {
+					fresh = append(fresh, r)
+				}
+			}
+		}
+		pick := func(xs []int, n int) []int {
+			var out, later []int
+			seen := map[int]bool{}
+			for _, r := range xs {
+				if !seen[progOf(r)] {
+					seen[progOf(r)] = true
+					out = append(out, r)
+				} else {
+					later = append(later, r)
+				}
+			}
+			out = append(out, later...)
+			if len(out) > n {
+				out = out[:n]
+			}
+			return out
+		}
+		nf, nk := 8, 3
+		if !c.Quick() {
+			nf, nk = 24, 6
+		}
+		confirm = append(pick(fresh, nf), pick(known, nk)...)
+		if skipped := len(fresh) + len(known) - len(confirm); skipped > 0 {
+			c.Notes = append(c.Notes, fmt.Sprintf("%s: %d further time-dependent rejections were not re-run (cap) and are not counted", o.Label, skipped))
 		}
 	}
 	confirmed := map[int]bool{}
@@ -168,16 +217,7 @@ func (c *Ctx) TokenGameRound(fs []Finding, ps []*prog.Program, o RoundOpts) erro
 			continue
 		}
 		p := ps[progOf(r)]
-		tags := append([]string{}, p.Tags...)
-		if o.ExtraTags != nil {
-			tags = append(tags, o.ExtraTags(p, &scheds[r])...)
-		}
-		kind := ""
-		if n := p.Node(f.Node); n != nil {
-			kind = n.Kind
-		}
-		flog := o.Filter(p, runs[r])
-		rej := Rejection{Prop: c.Prop, Tags: tags, Ev: f.Ev, Node: f.Node, NodeKind: kind, Detail: detail(p, flog, f)}
+		rej := mkRej(r)
 		c.Reject(fs, rej, map[string]any{"round": o.Label, "program": p, "schedule": scheds[r], "log": runs[r], "job": job.Opts})
 	}
 	return nil
